@@ -154,7 +154,11 @@ where
         reduce_lanes_if_dummy("Public", public_rows <= 1, packing.public_lanes());
 
     let alu_empty = preprocessed.primitive[alu_idx].is_empty();
-    let effective_alu_lanes = reduce_lanes_if_dummy("ALU", alu_empty, packing.alu_lanes());
+    // `prove_all_tables` cannot tell an empty ALU trace (one dummy row) from a single real op
+    // and reduces lanes for both, so the same rule must apply here (12 values per op).
+    let alu_at_most_one_op = preprocessed.primitive[alu_idx].len() <= 12;
+    let effective_alu_lanes =
+        reduce_lanes_if_dummy("ALU", alu_at_most_one_op, packing.alu_lanes());
 
     let w_binomial = ExtF::extract_w();
 
